@@ -37,7 +37,7 @@ def fmt_case(now0, life, lim, progs):
 class Check(DiffCheck):
     id = 'C19'
     coq_dirs = ['Base', 'C19']
-    coq_targets = ['C19/C19_Proofs.vo', 'C19/C19_V2.vo']
+    coq_targets = ['C19/C19_Proofs.vo', 'C19/C19_Mtx.vo', 'C19/C19_Time.vo', 'C19/C19_V2.vo']
     properties_v = 'C19/C19_Properties.v'
     extract_v = 'C19/C19_Extract.v'
     runner_ml = 'ocaml/C19_run.ml'
@@ -284,6 +284,42 @@ class Check(DiffCheck):
         if int(m.group(5)) != 0:
             return 'use after free flagged'
         return None
+
+    # ------------------------------------------------------------------ F16 confirmation (never a violation)
+    def extra(self, ctx):
+        """ObjectCacheV2 ~Borrow / operator= use-after-free (finding F16): replayed on the real class on two vCPUs under
+        ASan when the tree carries the hook of repo_patches/C19-hook-borrow-window.diff.  Informational only."""
+        info = dict(hook_present=False)
+        self.extra_coverage = dict(f16_confirmation=info)
+        try:
+            hdr = open(os.path.join(REPO, 'common', 'objectcachev2.h')).read()
+        except Exception:
+            return []
+        if 'PHOTON_VERIF_C19_BORROW_WINDOW' not in hdr or not have_vclock():
+            info['note'] = 'hook PHOTON_VERIF_C19_BORROW_WINDOW (or H-clock) absent from the tree: confirmation skipped'
+            print('[C19] F16 confirmation skipped: hook absent (repo_patches/C19-hook-borrow-window.diff)')
+            return []
+        info['hook_present'] = True
+        exe, log = cxx_build(self.id, ['harness/C19/f16_confirm.cpp'], extra='-fPIC', asan=True, libphoton=True,
+                             out=os.path.join(BUILD, 'bin', 'C19_f16'))
+        if not exe:
+            info['note'] = 'confirmation harness did not build: ' + log[-400:]
+            print('[C19] F16 confirmation harness did not build (not a verdict)')
+            return []
+        env = dict(os.environ); env['ASAN_OPTIONS'] = 'detect_leaks=0:abort_on_error=0:exitcode=99:detect_stack_use_after_return=0'
+        lines = []
+        for mode in ('dtor', 'assign'):
+            rc, out = sh([exe, mode], timeout=200, env=env)
+            l = [x for x in out.splitlines() if x.startswith('F16 ')]
+            lines.append(l[0] if l else 'F16 %s not-reproduced: no output (rc=%s)' % (mode, rc))
+        info['runs'] = lines
+        confirmed = [l for l in lines if ' confirmed:' in l]
+        for l in lines:
+            print('[C19] ' + l)
+        if confirmed and not any(f.get('id') == 'F16' and f.get('status') == 'known' for f in load_known_findings(self.id)):
+            print('KNOWN-FINDING: property=C19 F16 ObjectCacheV2 Borrow touches its box after its own release(): heap-use-after-free '
+                  'reproduced on 2 vCPUs (stall > lifespan between release() and the rc read)')
+        return []
 
     def neighbours(self, case, rng):
         now0, life, lim, progs = parse_case(case)
